@@ -1,7 +1,7 @@
 (** * C11  Value/JSON codec and validation of the initial guess ([serde_json::Value] level). *)
 From Coq Require Import String.
 From Coq Require Import List ZArith NArith Bool.
-From Cambrian Require Import Base.F64 SourceFacts Syntax SpecBuild Codec CodecProofs.
+From Cambrian Require Import Base.F64 SourceFacts Syntax SpecBuild Codec CodecProofs RoundTrip.
 Import ListNotations.
 Local Open Scope string_scope.
 
@@ -23,6 +23,32 @@ Theorem accepted_guess_conforms :
   forall s j v, wf s = true -> json_ok j = true -> from_json s j = JOk v -> conforms s v = true.
 Proof. exact decode_conforms. Qed.
 Print Assumptions accepted_guess_conforms.
+
+(** round trip: for every well-formed spec and every conforming value (integers within i64, map
+    keys within usize: what the Rust types hold), serialising succeeds only with a document that
+    reads back as a guess, and the value read back serialises to the same document again (objects
+    compared as maps: a sub is written in the value's order and re-written in the spec's).  The
+    value read back may differ from the original where the encoding is ambiguous by design
+    (an optional wrapping a const or an optional: both encode as null). *)
+Theorem serialise_then_read_back :
+  forall s v j,
+    wf s = true -> conforms s v = true -> in_range v = true -> to_json v = JOk j ->
+    exists v' j', from_json s j = JOk v' /\ to_json v' = JOk j' /\ jeq j j' = true.
+Proof. exact roundtrip. Qed.
+Print Assumptions serialise_then_read_back.
+
+(** keys of resizable maps survive printing and parsing *)
+Theorem map_keys_survive_text : forall k, (k <= usize_max)%N -> parse_usize (N2s k) = Some k.
+Proof. exact parse_usize_N2s. Qed.
+Print Assumptions map_keys_survive_text.
+
+Example roundtrip_nonvacuous :
+  let s := SSub [("m", SAnonMap (SOptional SConst false) 1 (Some 1%nat) None); ("r", SReal fone fone None None)] in
+  let v := VSub [("r", VReal fone); ("m", VAnonMap [(7%N, VOptional (Some VConst))])] in
+  wf s = true /\ conforms s v = true /\ in_range v = true /\
+  to_json v = JOk (JObj [("r", JFloat fone); ("m", JObj [("7", JNull)])]) /\
+  from_json s (JObj [("r", JFloat fone); ("m", JObj [("7", JNull)])]) = JOk (VSub [("m", VAnonMap [(7%N, VOptional None)]); ("r", VReal fone)]).
+Proof. vm_compute. repeat split. Qed.
 
 (** instances of the rejections (computed) *)
 Definition sp_arr := SArray (SBool true) 3.
